@@ -144,7 +144,7 @@ OptProbe == [k |-> "optprobe"]
 
 \* parameters: <<name, has default, default expression>>; positional-or-keyword unless listed in kwonly
 Params(t) ==
-  CASE t \in {"inc", "pinc", "ainc", "boom", "kboom", "twice", "fan", "sumall", "ident", "safe",
+  CASE t \in {"inc", "pinc", "ainc", "boom", "kboom", "lboom", "twice", "fan", "sumall", "ident", "safe",
               "chooser", "recover", "recover2", "neg", "mid", "recover_all", "deep", "aslow"} ->
           << <<"x", FALSE, Val(NoneV)>> >>
     [] t \in {"add", "padd"} -> << <<"a", FALSE, Val(NoneV)>>, <<"b", FALSE, Val(NoneV)>> >>
@@ -176,6 +176,7 @@ Body(t, a, jopts) ==
     [] t \in {"add", "padd"} -> OpBody("add", <<a[1], a[2]>>)
     [] t = "boom" -> RaiseE("ValueError", "boom")
     [] t = "kboom" -> RaiseE("KeyError", "kboom")
+    [] t = "lboom" -> RaiseE("ValueError", "lboom")    \* the exception object holds something pickle refuses (a lock)
     [] t = "recover" -> Val(IntV(-1))
     [] t = "recover2" -> Val(IntV(-2))
     [] t = "recover_all" -> \* counts the errors in the list it is given
